@@ -1,11 +1,11 @@
 SPECIFICATION Spec
 CONSTANTS
   Mode = "every_label"
-  NameLens = {1, 5}
+  NameLens = {1, 4, 8}
   ThreadLens = {3, 4}
   ValLens = {2, 9}
   ColW = 8
-  MaxRows = 6
+  MaxRows = 5
   MaxDepth = 3
 INVARIANTS
   NameColumnAligned
